@@ -271,6 +271,7 @@ pub fn explore(sc: &Scenario, cfg: &Config) -> Report {
             a.stats.queries += rtx.stats.queries; a.stats.pruned += rtx.stats.pruned; a.stats.forks += rtx.stats.forks;
             a.stats.hook_calls += rtx.stats.hook_calls; a.stats.hook_cached += rtx.stats.hook_cached; a.stats.solver_ns += rtx.stats.solver_ns;
             a.stats.entail_queries += rtx.stats.entail_queries;
+            a.stats.solver_disagreements += rtx.stats.solver_disagreements; a.stats.solver_restarts += rtx.stats.solver_restarts;
             a.samples.extend(samples);
             a.sample_choices.extend(sample_choices);
         }).unwrap());
